@@ -36,7 +36,171 @@ CLAIMED = {
         technique='Lean 4 invariants over all histories + exhaustive small-scope differential check (<= 2/3 control messages at '
                   'every callback boundary, every tolerated failure class at every transition index) with twin-process monitors',
         design='6/C16'),
+    'C19': dict(
+        text='Lean theorems C19_members_roundtrip (+ _global, _persave), C19_autopersist_inherit_independent (+ _shared_leaks), '
+             'C19_future_state_restored, C19_loader_precedence, C19_unknown_class_valueerror (+ C19_loaded_class_is_resolved): '
+             'for every class family reachable by any sequence of decorator / classmethod declarations, every object tree of any '
+             'nesting depth (structural induction), every member kind and future state and every loader configuration, '
+             'load(save(o)) restores every declared member; a child\'s declarations reach the parent exactly when the '
+             'classmethod is used on a class that only inherits its set; the class is resolved by context loader > recorded '
+             'loader > global default; an unknown class or recorded loader is a ValueError and a returned object is always an '
+             'instance of the class the loader resolved. The model is compared with the real Savable/SavableFuture/loaders code on '
+             'all 64 loader configurations x 6 tamperings x member kinds, all declaration sequences up to length 2-3 and '
+             'thousands of random families and object trees, with the original mutated after save.',
+        note='Modelled, not verified: Savable.save/save_members/load/recreate_from/load_members/_get_value, '
+             '_ensure_object_loader, the auto_persist decorator and classmethod, SavableFuture (hand-written Lean mirror, '
+             'differential check per case); copy.deepcopy and asyncio.Future by contract. Copy-at-save is value semantics in the '
+             'model and is decided by the differential check (mutation after save), not by a theorem.',
+        technique='Lean 4 structural induction over nested object trees + ownership invariant of the set heap + differential '
+                  'correspondence on generated class families with in-process custom loaders',
+        design='6/C19'),
+    'C20': dict(
+        text='Lean theorems over an executable model of the future adapters (heap of future cells with done-callbacks, concurrent '
+             'futures invoking callbacks inline, asyncio futures scheduling them): C20_unwrap_innermost, C20_mirror_faithful, '
+             'C20_schedule_rpc_unwraps (every nesting depth by induction, every terminal outcome, every order of completions and '
+             'loop callbacks: the adapter future holds exactly the innermost outcome once all levels are complete, is pending '
+             'before, is set exactly once and no InvalidStateError escapes), C20_create_task_captures, C20_action_runs_at_most_once, '
+             'C20_action_refuses_rerun_and_after_cancel, C20_action_reports_through_itself, C20_done_is_final. The model is compared '
+             'operation by operation with the real adapters on real kiwipy/asyncio futures across a loop thread and a '
+             'communicator thread: all chains of depth <= 4 (quick) / 6 (thorough) x 3 outcomes x all completion orders.',
+        note='Modelled, not verified: asyncio / concurrent.futures (contract stated at the top of Futures/Model.lean), cross-thread '
+             'delivery (interleaving semantics: operations are atomic with respect to the loop thread), LocalCommunicator. '
+             'Exceptions are `Exception`s; chains are acyclic; the consumer does not set the adapter future.',
+        technique='Lean 4 invariant proofs by induction on nesting depth and on the event sequence + differential correspondence on '
+                  'enumerated chains, orders and random operation sequences',
+        design='6/C20'),
+    'C17': dict(
+        text='Lean theorems over the launcher model (Launcher.call = ProcessLauncher.__call__, launch/continue_/create), for every '
+             'configuration, loader tables, process runtime, persister content and task body, hence at every point of every history '
+             '(C17_history_step): C17_unknown_task_rejected, C17_persist_without_persister_rejected, '
+             'C17_continue_without_persister_rejected, C17_refused_task_is_inert (a rejected or failed task changes nothing and runs '
+             'nothing), C17_create_does_not_run, C17_launch_persists_first (the initial checkpoint is saved before the run), '
+             'C17_continue_uses_requested_tag (+ depends only on that entry), C17_nowait_returns_pid, C17_reply_is_outputs_or_error, '
+             'C17_configured_loader_used, C17_history_without_persister, C17_create_then_continue (execute_process). The dispatch chain, '
+             'keyword signatures and body keys are generated from the source (C17_tables, C17_bodies_bind). The model is compared with '
+             'the real ProcessLauncher on tens of thousands of task histories (direct call and controller->LocalCommunicator path).',
+        note='Modelled, not verified: ProcessLauncher.__call__/_launch/_continue/_create (hand-written Lean mirror, differential check '
+             'per task on reply, persister keys and per-process step trace before/after the reply); persisters (C14), Process '
+             'stepping and save/load (C01-C08) are oracles of the model, exercised through the real code.',
+        technique='Lean 4 proofs of the decision logic over an executable launcher model + differential correspondence on generated '
+                  'task histories with independent Python monitors',
+        design='6/C17'),
+    'C11': dict(
+        text='Lean theorems C11_accepts_iff / C11_validate_iff / C11_accepts_iff_decl (construction succeeds iff the inputs completed by the declared defaults '
+             'conform to the spec, for every nested port tree, every nested input dictionary and every validator oracle), '
+             'C11_defaults_exact (the parsed inputs are the raw inputs completed with exactly the declared defaults, per key at every '
+             'declared level; C11_supplied_preserved is its path form), C11_frozen_levels (every declared namespace level is a frozen '
+             'mapping), C11_reject_classes. The model is compared with real Process construction on every spec with <= 2 ports '
+             '(<= 3 thorough) x small inputs and on thousands of random specs with <= 6 ports (accept/reject, exception class, failing '
+             'port path, parsed tree with frozen tag per level); independent Python monitors check acceptance, the completed inputs, '
+             'immutability by mutation attempts, raw_inputs and the caller\'s dictionary, and that a second construction agrees.',
+        note='Modelled, not verified: PortNamespace.pre_process / validate / validate_ports / validate_dynamic_ports, Port.validate, '
+             'InputPort.required_override, Process.on_create (hand-written Lean mirror, differential check per case). Non-mutation of '
+             'raw_inputs and of the caller\'s dictionary is decided by the correspondence check only. C11_accepts_iff_decl (completion '
+             'given by the per-key relation DefaultsExact instead of the model function) assumes validators that cannot tell two '
+             'completions of the same inputs apart (key order).',
+        technique='Lean 4 proof by mutual structural induction over port trees (model validate = declarative Conforms; pre_process = '
+                  'declarative completion) + differential correspondence on generated specs and inputs',
+        design='6/C11'),
+    'C12': dict(
+        text='Lean theorems C12_out_stores_iff (out() succeeds iff the output spec, as extended by earlier calls, accepts (path, value) '
+             'and the place is free), C12_out_stored (value found at its path, unrelated paths unchanged, listener told (path, value, '
+             'dynamic)), C12_out_failed (outputs and notifications unchanged, ValueError exactly for a rejected value), '
+             'C12_successful_iff (FINISHED with the result preserved; successful iff the step result was successful and the outputs '
+             'conform), C12_future_reports_outputs (notifications = the calls that returned, outputs = those re-inserted in order = '
+             'future result = on_process_finished argument), for every output spec, oracle and emission sequence. Compared with real '
+             'runs per emission (outcome class, dynamic flag, notification, outputs, port-name tree of the spec) and at the end.',
+        note='Modelled, not verified: Process.out, PortNamespace.get_port(create_dynamically=True), Process.on_finish and the '
+             'StateEntryFailed branch of StateMachine.transition_to (hand-written Lean mirror, differential check per emission). '
+             'The rest of the state machine around FINISHED is C01/C02.',
+        technique='Lean 4 proof (induction over dotted names and emission sequences, reusing the C11 validation theorem) + differential '
+                  'correspondence on generated output specs and emission sequences',
+        design='6/C12'),
+    'C14': dict(
+        text='Lean theorems C14_inmem_refines / C14_pickle_refines: for every history of save/load/list/delete operations '
+             'interleaved with progress of the live processes, the model of InMemoryPersister (nested dictionaries) and the model of '
+             'PicklePersister (directory keyed by pickle_filename, listing by suffix filter, delete ignoring absence) return, operation '
+             'by operation, what a map (pid, tag) -> snapshot returns, and stay related to it; corollaries C14_snapshot_immutable_*, '
+             'C14_list_exact_*, C14_delete_idempotent_*, C14_delete_local_*, C14_delete_process_exact_* and '
+             'C14_observational_equivalence (any history satisfying the side condition). C14_filename_injective is proved from '
+             'the side condition (one id kind per history, separator-free string forms) over the file-name templates regenerated '
+             'from the source; C14_separator_needed / C14_one_kind_needed show the side condition cannot be dropped. Both models '
+             'are compared with the two real persisters (real directory, real stepping processes) after every operation of all '
+             'short histories and thousands of random ones, with a full probe of the stored state after each operation.',
+        note='Modelled, not verified: the two persister classes (hand-written Lean mirror, differential check per operation); '
+             'copy.deepcopy / pickle / the file system are exercised through the real code, a snapshot is an abstract value in the '
+             'model. Listings are compared up to order.',
+        technique='Lean 4 refinement proof (two persister models refine a map specification, induction over histories) + '
+                  'differential correspondence on generated histories against both real persisters',
+        design='6/C14'),
 }
+
+PM_NOTE = ('Modelled, not verified: Process.step / step_until_terminated / pause / play / kill / resume / fail / call_soon / '
+           'transition_to / Waiting / the workchain awaitables as the hand-written Lean model PMF, compared with real plumpy '
+           'after EVERY op on a deterministic one-callback-at-a-time asyncio loop (all placements of <= K requests over a program '
+           'corpus + random programs); asyncio itself, kiwipy and contextvars are trusted. User step functions are oracles.')
+
+
+def pm(text, technique='Lean 4 invariant proofs over the process-control model (induction over arbitrary event histories) + '
+                       'per-op differential correspondence on exhaustively enumerated small schedules', design='5, 6'):
+    return dict(text=text, note=PM_NOTE, technique=technique, design=design)
+
+
+CLAIMED.update({
+    'C01': pm('Theorems C01_graph_is_documented (the ALLOWED sets generated from the source equal the documented graph), '
+              'C01_edges_documented (for every program and every history of ticks and requests the entered-state log is a path of '
+              'that graph) and C01_terminal_states_final (from any terminal configuration no history changes state or log). '
+              'The Python monitor checks the same two clauses on every explored real run.'),
+    'C02': pm('Theorems C02_outcome_agrees / C02_nothing_reported_while_live / C02_future_resolved_iff_terminated: for every history, '
+              'terminal <=> future resolved, with exactly the outcome of the state object, closed, cleanups run once, one terminal '
+              'notification; while live nothing is reported. "step_until_terminated() returns" is not yet a theorem: it is decided '
+              'by the correspondence (task status compared after every op) and the monitor.'),
+    'C04': pm('Theorems C04_kill_total, C04_kill_when_idle, C04_kill_committed (after kill() handed back an action, every further '
+              'history leaves the process KILLED, EXCEPTED or with that kill still the pending interrupt action), '
+              'C04_end_of_step_kills, C04_pause_keeps_kill, C04_second_kill_same_action. The monitor additionally checks the '
+              'result of kill(), the kill text, future cancellation and that no step function starts after the request.'),
+    'C05': pm('Theorems C05_nothing_runs_while_paused (no activation in any history starts with paused = true), C05_pause_total, '
+              'C05_play_total, C05_play_unpauses, C05_play_cancels_pending_pause. Transparency (same steps, outputs, result as the '
+              'uninterrupted run) and status restoration are decided by the correspondence and the monitors against the '
+              'uninterrupted run of the same program; they are not yet theorems.'),
+    'C06': pm('Protocol theorems for every configuration: C06_resume_accepted, C06_resume_parked, C06_later_resume_ignored, '
+              'C06_parked_not_overwritten, C06_wake_rearms, C06_retracted_pause_keeps_wakeup, with C13_wait_resume_exact for the '
+              'delivery. The history-level statement (first accepted value is what the continuation receives; never WAITING for '
+              'ever) is decided by the correspondence and the monitor over all placements of wake-ups against pause/play/kill.'),
+    'C10': pm('Mechanism theorems for every configuration: C10_done_stores_and_waits (stored under its key, the wait does not '
+              'complete while anything is awaited), C10_last_done_completes, C10_failed_item_fails_wait, C10_failed_wait_excepts '
+              '(EXCEPTED, no further activation). The barrier over whole histories (all completion orders and placements, both '
+              'registration styles, failing and killed items) is decided by the correspondence and the monitor; not yet a theorem.'),
+    'C13': pm('Theorems C13_activation_exact, C13_continue_exact, C13_wait_resume_exact, C13_stop_exact, C13_kill_command, '
+              'C13_raise_excepts: for every configuration in which a step ends undisturbed, the next state / activation is exactly '
+              'what the returned command says, with exact positional and keyword arguments. Restoring from a checkpoint between '
+              'steps is covered by C08.'),
+})
+
+CLAIMED['C15'] = dict(
+    text='Theorem C15_selection_exact: for every source port tree and every rule sets (exclude arbitrary, include without ancestor '
+         'pairs) the leaves copied by the absorb model are exactly those selected under component-wise path matching, in order; '
+         'C15_sibling_with_shared_prefix_not_selected; C15_include_exclude_rejected. Independence of the copies (both directions), '
+         'namespace properties and option overrides, preservation of the destination\'s other ports are decided by Python '
+         'monitors on the real spec objects for every generated case.',
+    note='Modelled, not verified: the loop of PortNamespace.absorb with strip_namespace (value semantics). Object identity / '
+         'aliasing is not in the model (copy.copy, copy.deepcopy are trusted runtime); it is probed on the real objects.',
+    technique='Lean 4 structural-induction proof of the selection rule + differential correspondence and mutate-after probes on real specs',
+    design='6/C15')
+
+CLAIMED['C03'] = dict(
+    text='Theorems over the complete space of from-states x targets x hook points x before/after-super variants (decided by the '
+         'kernel): C03_hook_fault_excepted (EXCEPTED with exactly the fault, future raising it, closed, cleanups once, nothing '
+         'escapes), C03_user_exception_excepted, C03_pause_hook_fault_reported / C03_play_hook_fault_reported, and the witness '
+         'C03_witness_fault_after_close for the recorded finding F18. The fault enumeration on the real code (every hook x '
+         'occurrence x variant x scenario, listeners, cleanups, call_soon, steps, construction) checks every clause and compares '
+         'the faulted transition with the model.',
+    note='Modelled, not verified: StateMachine.transition_to / Process.transition_failed / on_terminated / close with user '
+         'overrides of every hook (hand-written Lean mirror, compared with the real outcome of every faulted transition). '
+         'Listener faults are outside the model (EventHelper swallows them): monitor against the fault-free run. Known finding '
+         'F18 is reported as KNOWN-FINDING, any other failure is a violation.',
+    technique='Lean 4 exhaustive case proof over a transition model with one injected fault + fault enumeration on the real code',
+    design='6/C03')
 
 PENDING_REASON = 'check not built yet in this revision (planned: Lean model + correspondence, see DESIGN.md section 6)'
 
